@@ -54,6 +54,40 @@ CLAIMED = {
                 "this model.",
         "technique": "Coq proof (fold invariant over statement lists; executable spec) + exhaustive abstract histories + SQL scripts",
     },
+    "C18": {
+        "text": "Machine-checked theorems (axiom-free) about a Gallina model of io.to_cytoscape on insertion-ordered graphs keyed by Python "
+                "equality: every edge endpoint and every compound-parent reference is the id of an exported node, every column carries a "
+                "parent, nodes/edges are exported exactly once each, owners once up to equality, ids unique when printing is injective "
+                "(partial; the unguarded statement is refuted: K-C18-1), summary lists sorted with the same members.  Tied by running the model "
+                "inside Coq on the very sub-graphs the implementation exports, for every corpus and generated result, plus POST /lineage.",
+        "design_ref": "DESIGN.md section 6 C18",
+        "note": "Trusted: Coq kernel + vm_compute; hand-written models NX/Graph.v + Holder/Build.v; harness graph serialisation. "
+                "Duplicate ids for owners that print alike are a recorded finding (K-C18-1).",
+        "technique": "Coq proof (list/dictionary invariants) + model evaluated on the implementation's own graphs",
+    },
+    "C06": {
+        "text": "Machine-checked theorems (axiom-free) about a Gallina model of get_column_lineage / all_simple_paths on the full lineage "
+                "graph: every reported path has >=2 nodes (fix F4), is a duplicate-free chain of edges from an in-degree-0 column to an "
+                "out-degree-0 table-owned column; path enumeration is sound and complete; nodes are retrievable by equality, equality is an "
+                "equivalence, a resolved column has one owner.  The model of _build_digraph + paths is tied by feeding it the implementation's "
+                "per-statement holders (statement tap) for every corpus and generated script and comparing graph, roles and paths; projection "
+                "onto table lineage is evaluated on the implementation directly (S), with two recorded defect classes (K-C06-1/2).",
+        "design_ref": "DESIGN.md section 6 C06",
+        "note": "Trusted: Coq kernel + vm_compute; hand-written models NX/Graph.v + Holder/Build.v; harness serialisation of holder graphs. "
+                "The projection clause is checked, not proved (it depends on how extractors populate holders).",
+        "technique": "Coq proof (induction on fuel/paths) + holder-level correspondence on corpus and generated scripts",
+    },
+    "C12": {
+        "text": "Machine-checked theorems (axiom-free) about a Gallina model of MetaDataProvider/MetaDataSession and the statement loop of "
+                "LineageRunner._eval, for an arbitrary per-statement analysis function: the session is empty after every run incl. failing "
+                "ones, a reused provider answers as a fresh one, the outcome of a run is independent of the history of runs.  Tied by histories "
+                "of runs (failure at every position, provider faults at every lookup index, falsy and truthy providers, the shared default "
+                "provider) on the real runner, plus shuffled corpus histories and 16-thread pools.",
+        "design_ref": "DESIGN.md section 6 C12",
+        "note": "Trusted: Coq kernel + vm_compute; hand-written model Provider/Session.v (+ table-driven analyser Provider/Abstract.v for the "
+                "tie); thread non-interference is exercised (pools), not proved here beyond C15's locality; sqlfluff/SQLAlchemy caches not modelled.",
+        "technique": "Coq proof (state-machine invariant over run histories) + exhaustive failure-point histories",
+    },
 }
 
 checks = []
@@ -90,7 +124,7 @@ manifest = {
     }],
     "checks": checks,
     "not_applicable": na,
-    "notes": "fix commits in /repo: e020d83 (C15), c90fd36 (C17).  known_findings.json lists recorded defects.",
+    "notes": "fix commits in /repo: e020d83 (C15), c90fd36 (C17), baca01e (C06).  known_findings.json lists recorded defects.",
 }
 (VERIF / "MANIFEST.json").write_text(json.dumps(manifest, indent=1) + "\n")
 print("claimed", sorted(CLAIMED), "not claimed", len(na))
